@@ -406,7 +406,8 @@ func TestC11_Rapid(t *testing.T) {
 			case 4:
 				sb.WriteRune(genRune(rt))
 			default:
-				sb.WriteByte('x')
+				// an ordinary character - the NUL character is one (it is not the end of the content)
+				sb.WriteByte(rapid.SampledFrom([]byte{'x', 'x', 'x', 0, '\t'}).Draw(rt, "plain"))
 			}
 		}
 		content := []rune(sb.String())
